@@ -1,6 +1,6 @@
 (* CorrCompile.v — comparison of the resolver and compiler models with the
    trees, instruction words and constants the Go code produced. *)
-Require Import Calc.Base Calc.Bytecode Calc.Value Calc.Ast Calc.Resolve Calc.Compile Calc.Session.
+Require Import Calc.Base Calc.Bytecode Calc.Value Calc.Ast Calc.Resolve Calc.Compile Calc.CompileWf Calc.Session.
 Open Scope Z_scope.
 
 Fixpoint zlist_eqb (a b : list Z) : bool :=
@@ -43,3 +43,6 @@ Definition chk_compile (l : list stmt_case) : bool :=
   | Some s => chk_compile_from s l
   | None => false
   end.
+
+(* the resolved trees of a run lie in the domain of the compiler theorem (CompileLoops.v) *)
+Definition chk_wfb (l : list node) : bool := forallb wfb l.
